@@ -11,6 +11,17 @@ def keys_written(fnode, var):
     out = {}
     for n in q.walk(fnode):
         if isinstance(n, ast.Assign):
+            # keys given in the display / dict(..) call that creates the dict
+            if len(n.targets) == 1 and isinstance(n.targets[0], ast.Name) and n.targets[0].id == var:
+                v = strip_cast(n.value)
+                if isinstance(v, ast.Dict):
+                    for k_, v_ in zip(v.keys, v.values):
+                        if k_ is not None and q.const_str(k_) is not None:
+                            out.setdefault(q.const_str(k_), []).append((v_, n))
+                elif isinstance(v, ast.Call) and isinstance(v.func, ast.Name) and v.func.id == 'dict' and not v.args:
+                    for kw in v.keywords:
+                        if kw.arg:
+                            out.setdefault(kw.arg, []).append((kw.value, n))
             for t in n.targets:
                 if isinstance(t, ast.Subscript) and isinstance(strip_cast(t.value), ast.Name) and strip_cast(t.value).id == var:
                     k = q.const_str(t.slice)
